@@ -81,13 +81,20 @@ func RunReuse(sc *core.Scenario) *ReuseResult {
 		out.Harness = "generated program rejected by the builder: " + err.Error()
 		return out
 	}
-	for _, n := range sc.Removed {
-		lib.RemoveRuleEntry(n, esim.KBName, esim.KBVersion)
+	if !sc.Knobs.RemoveOnInstance {
+		for _, n := range sc.Removed {
+			lib.RemoveRuleEntry(n, esim.KBName, esim.KBVersion)
+		}
 	}
 	reused, err := esim.Instance(lib, sc.Knobs.Source)
 	if err != nil {
 		out.Harness = "instance: " + err.Error()
 		return out
+	}
+	if sc.Knobs.RemoveOnInstance {
+		for _, n := range sc.Removed {
+			reused.RemoveRuleEntry(n)
+		}
 	}
 	for i, c := range sc.Calls {
 		p := &core.Scenario{Property: "C08", Sim: "E", Program: sc.Program, Facts: c.Facts, Schedule: c.Schedule, Faults: c.Faults,
@@ -99,6 +106,11 @@ func RunReuse(sc *core.Scenario) *ReuseResult {
 		if err != nil {
 			out.Harness = "fresh instance: " + err.Error()
 			return out
+		}
+		if sc.Knobs.RemoveOnInstance {
+			for _, n := range sc.Removed {
+				fresh.RemoveRuleEntry(n)
+			}
 		}
 		rb := newRes()
 		esim.RunOn(p, fresh, rb)
